@@ -5,6 +5,7 @@
 -/
 import SugarModel.Driver.Transcript
 import SugarModel.Spec.Policy
+import SugarModel.Model.AclStep
 namespace Sugar.Driver
 open Sugar Sugar.Acl
 
@@ -136,53 +137,6 @@ def canonAcl (a : AclState) : List User × List (Nat × Bool × Option Nat × Op
      | some i => (cid, c.authenticated, some i, none)
      | none => (cid, c.authenticated, none, some (canonUser (a.get c.user))))
 
-inductive AOut where
-  | reply (bs : Bytes)
-  | anyOk                    -- authorized; the reply of the probe is not this model's business
-  | denied (d : Deny)
-  | err (msg : Bytes)
-  | panic
-  | unmod (why : String)
-
-/-- one command on connection `cid`: dispatcher gate (authorize), then the ACL-related handler -/
-def aclStep (a : AclState) (cid : Nat) (cmd : List Bytes) (sha : Bytes) (ml : MetaLine) : AclState × AOut :=
-  match cmd with
-  | [] => (a, .unmod "empty")
-  | name :: _ =>
-    if !isAscii name then (a, .unmod "non-ascii") else
-    let n := toLower name
-    if n == b "@register" then
-      match registerConn a cid with
-      | some a' => (a', .anyOk)
-      | none => (a, .panic)
-    else
-    let conn : Conn := (a.conns.get cid).getD ⟨false, 0⟩
-    match authorize globMatch a.requirePass conn.authenticated (a.get conn.user) ml.m with
-    | some d => (a, .denied d)
-    | none =>
-      let sub := toLower (cmd.getD 1 [])
-      if n == b "auth" then
-        if cmd.length < 2 || cmd.length > 3 then (a, .err wrongArgs) else
-        match authenticate a cid cmd sha with
-        | (a', .ok) => (a', .reply okReply)
-        | (a', .err m) => (a', .err m)
-        | (a', .panic) => (a', .panic)
-        | (a', .unmod) => (a', .unmod "auth")
-      else if n == b "acl" && sub == b "setuser" then
-        match setUser a (cmd.drop 2) with
-        | (a', .ok) => (a', .reply okReply)
-        | (a', .err m) => (a', .err m)
-        | (a', .panic) => (a', .panic)
-        | (a', .unmod) => (a', .unmod "setuser token")
-      else if n == b "acl" && sub == b "deluser" then
-        if cmd.length < 3 then (a, .err wrongArgs) else (deleteUsers a (cmd.drop 2), .reply okReply)
-      else if n == b "acl" && sub == b "whoami" then
-        (a, .reply (simpleStr (a.get conn.user).name))
-      else if n == b "acl" && sub == b "users" then
-        (a, .reply (arrHdr a.order.length ++ (a.users.map fun p => bulkStr p.2.name).flatten))
-      else if n == b "acl" || n == b "hello" then (a, .unmod "acl sub-command not modelled")
-      else (a, .anyOk)
-
 def aVerdict (toks : List String) : String :=
   let p : P String := do
     expect "A"
@@ -206,7 +160,7 @@ def aVerdict (toks : List String) : String :=
     expect "D"
     let same ← pBool
     let a := loadAcl pre
-    let (a', out) := aclStep a cid cmd sha ml
+    let (a', out) := aclStep a cid cmd sha ml.m
     let stateOk := canonAcl a' == canonAcl (loadAcl post)
     let conn : Conn := (a.conns.get cid).getD ⟨false, 0⟩
     let u := a.get conn.user
